@@ -162,7 +162,7 @@ class C06(Check):
         im = Impl()
         self.im = im
         try:
-            for part in (self.oracle_record, self.run_corpus, self.corr_append, self.run_namespaces, self.run_block_ends,
+            for part in (self.oracle_record, self.run_corpus, self.corr_append, self.run_namespaces, self.run_block_ends, self.run_cascade,
                          self.run_sheets, self.run_files, self.oracle_restore):
                 ctx.phase(part, ctx, im)
         finally:
@@ -189,6 +189,15 @@ class C06(Check):
         if dict(vars(p)) != fresh:
             ctx.violate('useDefaults() does not restore the preference record',
                         {'history': ['useMinified()', 'useDefaults()']}, None)
+        # the documented constructor `Preferences(**initials)` assigns what it is given
+        for k in X.PREF_ORDER:
+            for v in ALT.get(k, [True, False]):
+                ctx.case(key=('ctor', k, repr(v)), nontrivial=True, kind='record-constructor')
+                q = P(**{k: v})
+                if getattr(q, k) != v:
+                    known = 'C06-constructor-ignores-falsy' if not v else None
+                    ctx.violate('Preferences(%s=%r) does not set the preference' % (k, v),
+                                {'history': ['Preferences(%s=%r)' % (k, v)]}, {'value': getattr(q, k)}, known=known)
         missing = [k for k in X.PREF_ORDER if k not in fresh]
         if missing:
             raise RuntimeError('preferences missing from a fresh record: %r' % missing)
@@ -558,7 +567,8 @@ class C06(Check):
                    'red /*c*/', 'e\\  /*c*/', 'e\\\\', 'red !important']
     BLOCK_KINDS = ['a{x:%s}', 'a{x:%s;}', '@variables{a:%s} b{x:var(a)}', '@variables{c:1px;a:%s}',
                    '@variables{a:%s;}', '@page{x:%s}', '@page{x:%s;@top-left{y:%s}}', '@font-face{font-family:%s}',
-                   'a{x:%s;/*last*/}', '@variables{a:%s;/*last*/}']
+                   'a{x:%s;/*last*/}', '@variables{a:%s;/*last*/}', 'a{x:%s;@foo bar;}', 'a{y:1;x:%s;@foo bar;@baz "s";}',
+                   '@page{x:%s;@foo bar;}', 'a{x:%s;@foo bar;/*c*/}', 'a{@foo bar;x:%s}']
 
     def run_block_ends(self, ctx, im):
         """Every kind of declaration / variables block ending in every kind of value (escaped blank, string, function,
@@ -575,6 +585,29 @@ class C06(Check):
             if len(pending) > 4000:
                 self.flush(ctx, pending)
                 pending = []
+        self.flush(ctx, pending)
+
+    # -- the cascade inside one block: every priority pattern of a name declared two or three times ---------
+    def run_cascade(self, ctx, im):
+        """`keepAllProperties=False` keeps, of the declarations of one name, the last `!important` one, else the last
+        one: all patterns of (normal | important) for a name declared twice and three times, in three spellings of the
+        name, alone and with another property in between, in a style rule, @page, margin rule and @media."""
+        spell = ['color', 'COLOR', 'c\\olor']
+        vals = ['red', 'blue', 'green']
+        blocks = []
+        for k in (2, 3):
+            for pat in itertools.product(['', ' !important'], repeat=k):
+                ds = ['%s: %s%s' % (spell[i % 3], vals[i], pat[i]) for i in range(k)]
+                blocks.append(';'.join(ds))
+                blocks.append(';'.join([ds[0], 'margin: 0'] + ds[1:]) + ';top: 1px !important')
+        recs = [{}, {'keepAllProperties': False}, {'keepAllProperties': False, 'defaultPropertyName': False},
+                {'keepAllProperties': False, 'validOnly': True}, {'keepAllProperties': False, 'omitLastSemicolon': False},
+                {'keepAllProperties': False, 'defaultPropertyPriority': False},
+                dict(diff_prefs(im.minified, im.defaults), keepAllProperties=False)]
+        pending = []
+        for i, b in enumerate(blocks):
+            wrap = ['a{%s}', '@page{%s}', '@page{@top-left{%s}}', '@media print{a{%s}}'][i % 4]
+            pending += self.check_sheet(ctx, im, wrap % b, recs, 'cascade')
         self.flush(ctx, pending)
 
     def run_sheets(self, ctx, im):
@@ -745,6 +778,8 @@ class C06(Check):
         w = finding['witness']['data']
         fid = finding['id']
         try:
+            if fid == 'C06-constructor-ignores-falsy':
+                return im.cu.serialize.Preferences(keepComments=False).keepComments is not False
             sh = im.parse(w['src'])
             prefs = self.full(im, w['prefs'])
             res, _ = im.serialize(sh, prefs)
